@@ -777,6 +777,31 @@ func $NB(a int) int {
 	}
 	return len(show(a, 2, "x"))*1000 + c(a, 2, 3)*10 + n
 }`, entries: []*Entry{callEntry("$NB", 1, nil)}},
+	// directives on the specs of a parenthesised declaration group, in a file whose generator is a function LITERAL (its attached
+	// source makes the file carry a comment list, and with a comment list the printer ignores doc comments): the embedded
+	// variable is the file itself (every rendering of the package has a p.go)
+	{name: "directives-on-grouped-declarations", imports: []string{`_ "embed"`}, decls: `
+var (
+	// $NSrc is filled in by the go command.
+	//go:embed p.go
+	$NSrc string
+
+	//go:embed p.go
+	$NRaw []byte
+)
+
+var $NLit = $GEN{(a int)}{int}{
+	$YIELD{a}
+	$RET
+}
+
+func $NB(a int) int {
+	n := 0
+	if len($NSrc) > 0 && len($NRaw) == len($NSrc) {
+		n = 1
+	}
+	return a*10 + n
+}`, entries: []*Entry{callEntry("$NB", 1, nil)}},
 	{name: "range-over-func-outside-generators", decls: byGen + `
 func $NSeq(n int) func(func(int) bool) {
 	return func(y func(int) bool) {
@@ -900,7 +925,7 @@ $GEN{$NT[B ~bool](b B, a int)}{int}{
 	}
 	$RET
 }`, entries: []*Entry{drive("$NG", "int", 1, nil), {Name: "$NT", Kind: "drive", Call: "$P$NT(true, $0)", Elem: "int", Inputs: allInputs(1, 0, 3), Scripts: []string{"std"}},
-		{Name: "$NTb", Kind: "drive", Call: "$P$NT($NB(false), $0)", Elem: "int", Inputs: allInputs(1, 0, 3), Scripts: []string{"std"}}}},
+		{Name: "$NTb", Kind: "drive", Call: "$P$NT($P$NB(false), $0)", Elem: "int", Inputs: allInputs(1, 0, 3), Scripts: []string{"std"}}}},
 }
 
 // ---- delegation (C05) ------------------------------------------------------------------------------
